@@ -129,6 +129,17 @@ def check_sig(ctx, case, enum=False, cache=None):
             ctx.nontrivial(("sig", case["curve"], dd, case["hash"], case["payload"], case.get("extra", ""), entry))
 
 
+def _boundary_digest(n, delta, extra_bytes=0):
+    """digest whose leftmost bitlen(n) bits are n + delta (when that fits)"""
+    qlen = n.bit_length()
+    v = n + delta
+    if v < 0 or v >= 1 << qlen:
+        v = n
+    nbytes = (qlen + 7) // 8
+    data = (v << (8 * nbytes - qlen)).to_bytes(nbytes, "big")
+    return data + b"\xa5" * extra_bytes
+
+
 def st_k():
     orders = st.one_of(
         st.sampled_from([gen.named(c).n for c in gen.NAMED]),
@@ -140,7 +151,10 @@ def st_k():
     def mk(n, di, u, hname, dkind, dlen, rnd, extra, retry):
         bs = gen.boundary_scalars(n) if n > 3 else [1]
         x = bs[di % len(bs)] if di >= 0 else 1 + u % (n - 1) if n > 2 else 1
-        if dkind == 0:
+        if dkind == 4:
+            # leftmost qlen bits equal to n-1, n or n+1 (the bits2octets reduction boundary)
+            data = _boundary_digest(n, (rnd % 3) - 1, rnd % 2)
+        elif dkind == 0:
             data = hashlib.shake_128(rnd.to_bytes(8, "big")).digest(dlen)
         elif dkind == 1:
             data = bytes(dlen)
@@ -151,7 +165,7 @@ def st_k():
         return {"kind": "k", "n": n, "d": x, "hash": hname, "data": data.hex(), "extra": extra.hex(), "retry": retry}
 
     return st.builds(mk, orders, st.integers(-10, 60), st.integers(0, 1 << 600), st.sampled_from(gen.HASH_NAMES),
-                     st.integers(0, 3), st.integers(1, 100), st.integers(0, 2 ** 64 - 1),
+                     st.integers(0, 4), st.integers(1, 100), st.integers(0, 2 ** 64 - 1),
                      st.one_of(st.just(b""), st.binary(min_size=1, max_size=8), st.binary(min_size=60, max_size=130)),
                      st.sampled_from([0, 0, 0, 1, 2, 3, 5]))
 
@@ -205,9 +219,10 @@ def run_unit(ctx, name, **kw):
             for x in sorted({1, n // 2, n - 1} - {0}):
                 if not 1 <= x < n:
                     continue
-                for j, data in enumerate((b"\x00", b"\xff\xff\xff\xff", hashlib.sha256(b"%d" % n).digest())):
+                for j, data in enumerate((b"\x00", b"\xff\xff\xff\xff", hashlib.sha256(b"%d" % n).digest(),
+                                          _boundary_digest(n, 0), _boundary_digest(n, -1, 1), _boundary_digest(n, 1))):
                     check_k(ctx, {"kind": "k", "n": n, "d": x, "hash": hs[(n + j) % len(hs)], "data": data.hex(),
-                                  "extra": "" if (n + j) % 3 else "ab", "retry": (n + j) % 4 if j == 2 else 0}, enum=True)
+                                  "extra": "" if (n + j) % 3 else "ab", "retry": (n + j) % 4 if j in (2, 3) else 0}, enum=True)
         ctx.sample({"kind": "k", "n": kw["lo"] + kw["shard"], "note": "all n in range, d in {1,n//2,n-1}"})
         ctx.exhausted("generate_k: every order in [2,%d] with boundary d" % kw["hi"])
     elif name == "k-random":
